@@ -57,7 +57,7 @@ add("C01", "round-trip fidelity",
 
 add("C02", "wire format",
     [H("vfH_rt_e2e", ["rt-e2e-end"], 400), H("vfH_wire_thresholds", ["thresholds-end"]), H("vfH_control_step", ["control-accepted", "control-refused"]),
-     H("vfH_mask_keys", ["mask-keys-end"]), H("vfH_compress_toggle", ["toggle-end"]), H("vfH_prepared_seq", ["prepared-seq-end"]), TWIN("vfH_control_step")],
+     H("vfH_mask_keys", ["mask-keys-end"]), H("vfH_compress_toggle", ["toggle-end"]), H("vfH_prepared_seq", ["prepared-seq-end"]), H("vfH_invalid_req", ["invalid-req-end"]), TWIN("vfH_control_step")],
     [H("vfH_rt_e2e", ["rt-e2e-end"], 1800, {"tier": 1}), H("vfH_rt_e2e", ["rt-e2e-end"], 900, {"M": 2}), H("vfH_wire_thresholds", ["thresholds-end"], 900, {"tier": 1})],
     ["as C01 for the write side; WriteControl: message type fully symbolic (all 2^64 ints), payload lengths {0,1,2,124,125,126,130}, symbolic payload, symbolic deadline",
      "mask keys: 2 messages x 4 write programs x buffer sizes {2,8}: every client frame's key equals its own fresh 4-byte draw, in order; maskRand is crypto/rand.Reader after package initialisation"],
@@ -67,7 +67,7 @@ add("C02", "wire format",
     "trusted: engine translation, z3, reference decoder (spec.go), stored-block flate model")
 
 add("C03", "reader on any conformant stream",
-    [H("vfH_read_e2e", ["read-e2e-end"], 500), H("vfH_read_step_data", ["step-accepted"], 400), H("vfH_rt_chunk", ["rt-chunk-end"]), H("vfH_json_rt", ["json-rt-end"]), TWIN("vfH_read_e2e")],
+    [H("vfH_read_e2e", ["read-e2e-end"], 500), H("vfH_read_step_data", ["step-accepted"], 400), H("vfH_rt_chunk", ["rt-chunk-end"]), H("vfH_json_rt", ["json-rt-end"]), H("vfH_abandon_compressed", ["abandon-compressed-end"]), TWIN("vfH_read_e2e")],
     [H("vfH_read_e2e", ["read-e2e-end"], 2400, {"tier": 1}), H("vfH_read_e2e", ["read-e2e-end"], 2400, {"M": 2, "small": 1}),
      H("vfH_read_step_data", ["step-accepted"], 1500, {"tier": 1})],
     ["streams from the reference encoder: 1 message (thorough 2) of length {0,1,5} (thorough + 2,9,130) in 7 fragmentation shapes incl. empty frames, a ping/pong before / between / after the fragments, stored-block compressed or not, all 2^32 mask keys per frame (symbolic), both reader roles",
@@ -158,7 +158,7 @@ add("C20", "pooled write buffers",
 
 add("C11", "concurrency contract",
     [H("vfH_conc_frames", ["conc-frames-end"], 400, {"preempt": 1}), H("vfH_conc_close", ["conc-close-end"]), H("vfH_conc_shared", ["conc-shared-end"]),
-     H("vfH_close_sched", ["close-sched-end"], 300), TWIN("vfH_conc_frames", {"preempt": 1}), TWIN("vfH_conc_shared")],
+     H("vfH_close_sched", ["close-sched-end"], 300), H("vfH_deadline", ["deadline-end"]), TWIN("vfH_conc_frames", {"preempt": 1}), TWIN("vfH_conc_shared")],
     [H("vfH_conc_frames", ["conc-frames-end"], 1800, {"preempt": 2, "tier": 1}), H("vfH_close_sched", ["close-sched-end"], 900, {"preempt": 3}), H("vfH_conc_shared", ["conc-shared-end"], 900, {"preempt": 3})],
     ["goroutines: 1 writer (a 43-byte message in 3 frames, on a server one frame written as two buffers), 1 reader (ping answered by the default handler, then a data message), 1 WriteControl caller (zero deadline / a deadline that may expire while the writer holds the connection / two calls), or Close(); 2 connections sharing one PreparedMessage and one buffer pool",
      "schedules: scheduling points at every transport operation (which may block arbitrarily long), goroutine start/end and every blocking lock or channel operation; context bound: quick 1 preemption (conc_frames) / 2 (others), thorough 2-3; timers may fire at any scheduling point after they were armed",
@@ -217,7 +217,7 @@ add("C13", "default origin policy (reduced)",
 
 add("C15", "compression agreement",
     [H("vfH_offer_variants", ["offer-variants-end"], 300), H("vfH_upgrade_logic", ["upgrade-success"], 600, {"focus": 9}), H("vfH_dial_logic", ["dial-success", "dial-refused"], 600, {"dim": 11}),
-     H("vfH_negotiate", ["negotiate-end"], 400), H("vfH_compress_toggle", ["toggle-end"]), H("vfH_read_step_data", ["step-accepted"], 500), TWIN("vfH_negotiate")],
+     H("vfH_negotiate", ["negotiate-end"], 400), H("vfH_compress_toggle", ["toggle-end"]), H("vfH_abandon_compressed", ["abandon-compressed-end"]), H("vfH_read_step_data", ["step-accepted"], 500), TWIN("vfH_negotiate")],
     [H("vfH_offer_variants", ["offer-variants-end"], 2400, {"tier": 1}), H("vfH_rt_e2e", ["rt-e2e-end"], 900, {"M": 2})],
     ["client and server negotiation code joined through their header maps for all four (Dialer.EnableCompression, Upgrader.EnableCompression) combinations and caller-supplied offers; server alone against offers from grammar templates (parameters, quoted strings, other extensions first, two lines, near-miss names, symbolic whitespace) and short arbitrary byte strings; client alone against replies with each / both / neither no_context_takeover parameter and extra extensions",
      "frame level: RSV1 on a first data frame accepted iff a decompressor is configured (inductive step); EnableWriteCompression / SetCompressionLevel (symbolic level, all 2^64 ints) toggled between 3 messages with the stored-block model"],
